@@ -1,6 +1,7 @@
 package main
 
 import (
+	"math/rand"
 	"bytes"
 	"context"
 	"fmt"
@@ -22,7 +23,18 @@ type SolverCfg struct {
 	// obligations recorded as known findings: they are expected to fail, so they get a short budget and no retry
 	// (a listed obligation that has become provable is still discharged if it is proved within that budget)
 	Known map[string]bool
+	Seed  int          // thorough: seeds the choice of the cross-solver audit sample
+	Audit *AuditResult // thorough: filled by Discharge
 }
+
+// AuditResult: thorough tier. A sample of the obligations that the fast path (incremental z3-new session) discharged is
+// sent again, each as a stand-alone script, to the two other solvers; a `sat` there is a solver disagreement.
+type AuditResult struct {
+	Sampled, Confirmed, Undecided, Disagree int
+}
+
+// thoroughGrace: in the thorough tier, how long the remaining solvers may still contradict the first verdict
+const thoroughGrace = 8 * time.Second
 
 type solverSpec struct {
 	name string
@@ -108,7 +120,7 @@ func Discharge(units []*Unit, cfg SolverCfg) {
 	// stage 0: one incremental solver session per unit (facts asserted once, each goal under push/pop)
 	var hard []job
 	var mu sync.Mutex
-	if !cfg.Thorough {
+	{
 		var wg0 sync.WaitGroup
 		for _, u := range units {
 			if u.VC == nil || len(u.VC.obls) == 0 {
@@ -200,6 +212,63 @@ func Discharge(units []*Unit, cfg SolverCfg) {
 			wg4.Wait()
 		}
 	}
+	if cfg.Thorough && cfg.Audit != nil {
+		var pool []job
+		for _, j := range jobs {
+			if j.o.Status == "unsat" && (j.o.Solver == "z3new-inc" || j.o.Solver == "z3new") {
+				pool = append(pool, j)
+			}
+		}
+		rng := rand.New(rand.NewSource(int64(cfg.Seed) + 12345))
+		rng.Shuffle(len(pool), func(a, b int) { pool[a], pool[b] = pool[b], pool[a] })
+		if len(pool) > 160 {
+			pool = pool[:160]
+		}
+		var wgA sync.WaitGroup
+		var muA sync.Mutex
+		for _, j := range pool {
+			wgA.Add(1)
+			go func(j job) {
+				defer wgA.Done()
+				script := j.u.VC.script(j.o, false)
+				if len(script) > maxScriptBytes {
+					return
+				}
+				file := filepath.Join(cfg.WorkDir, "audit_"+shortFile(j.o.Name)+".smt2")
+				os.WriteFile(file, []byte(script), 0o644)
+				defer os.Remove(file)
+				confirmed, disagree := false, false
+				for _, sv := range solvers {
+					if sv.name != "z3" && sv.name != "cvc5" {
+						continue
+					}
+					cpuSem <- true
+					st, _, _ := runSolver(sv, file, 15*time.Second)
+					<-cpuSem
+					if st == "unsat" {
+						confirmed = true
+					}
+					if st == "sat" {
+						disagree = true
+					}
+				}
+				muA.Lock()
+				cfg.Audit.Sampled++
+				switch {
+				case disagree:
+					cfg.Audit.Disagree++
+					j.o.Status, j.o.Solver = "error", "audit"
+					j.o.Model = "solver disagreement: discharged by " + j.o.Solver + " but sat in the cross-solver audit"
+				case confirmed:
+					cfg.Audit.Confirmed++
+				default:
+					cfg.Audit.Undecided++
+				}
+				muA.Unlock()
+			}(j)
+		}
+		wgA.Wait()
+	}
 	// vacuity guard: the facts of each unit together with its normal-return condition must not be contradictory
 	var wg2 sync.WaitGroup
 	for _, u := range units {
@@ -265,14 +334,14 @@ func stage1(u *Unit, o *Obligation, cfg SolverCfg) bool {
 	st, out, secs := runSolver(solvers[0], file, 2*time.Second)
 	<-cpuSem
 	o.Seconds += secs
-	if st == "unsat" && !cfg.Thorough {
+	if st == "unsat" {
 		o.Status, o.Solver = "unsat", solvers[0].name
 		if !cfg.KeepFiles {
 			os.Remove(file)
 		}
 		return true
 	}
-	if st == "sat" && !cfg.Thorough {
+	if st == "sat" {
 		o.Status, o.Solver = "sat", solvers[0].name
 		fetchModel(u, o, solvers[0], cfg)
 		return true
@@ -400,6 +469,7 @@ func stage2(u *Unit, o *Obligation, cfg SolverCfg) {
 	}
 	verdicts := map[string]string{}
 	var satSolver *solverSpec
+	var graceOnce sync.Once
 	for range attempts {
 		r := <-rc
 		o.Seconds += r.secs
@@ -411,6 +481,9 @@ func stage2(u *Unit, o *Obligation, cfg SolverCfg) {
 			}
 			if !cfg.Thorough {
 				cancel()
+			} else {
+				// thorough: the other solvers get a grace period to contradict the verdict, then they are stopped
+				graceOnce.Do(func() { time.AfterFunc(thoroughGrace, cancel) })
 			}
 		case "sat":
 			if o.Status != "unsat" && satSolver == nil {
@@ -420,6 +493,8 @@ func stage2(u *Unit, o *Obligation, cfg SolverCfg) {
 			}
 			if !cfg.Thorough {
 				cancel()
+			} else {
+				graceOnce.Do(func() { time.AfterFunc(thoroughGrace, cancel) })
 			}
 		case "cancelled":
 		default:
